@@ -1,15 +1,10 @@
-(* C05 — witnesses for the OPEN findings: the transcription I of goja's code does not have the
-   full-strength property at these inputs.  (F7-F10 were repaired in /repo; their witnesses are gone and
-   the full statements are proved in Proofs4.v.) *)
+(* C05 — counter-examples that delimit the theorems.  All findings of this property (F7-F10, F10b,
+   C05-N1..N7) were repaired in /repo; their witnesses are gone and the full statements are proved in
+   Proofs4.v.  What remains shows why the canonical-form hypothesis of the theorems is necessary. *)
 From Coq Require Import ZArith Bool List SpecFloat.
 From Verif.Base Require Import F64.
 From Verif.C05 Require Import Model.
 Local Open Scope Z_scope.
-
-(* C05-N4: int * int with a zero result ignores the sign rule except for the literal pair (0,-1) *)
-Lemma mul_zero_sign_refuted : exists a b, canon a = true /\ canon b = true /\
-  num_sem (op_mul a b) <> num_sem (S_bin BMul a b).
-Proof. exists (NInt 0), (NInt (-5)). vm_compute. repeat split; discriminate. Qed.
 
 (* outside canonical form SameAs is not even symmetric and the hash differs: why every producer must normalise *)
 Lemma sameAs_noncanonical_asymmetric : exists a b, wf a = true /\ wf b = true /\ num_sem a = num_sem b /\
